@@ -86,7 +86,7 @@ def rule_atomic_accept(ctx):
     def is_res(t):
         return t[0] == "var" and t[2] == "res"
     W = Walker(ctx, f, [Atom("res", "opt", is_res, ["None", "Some"])])
-    oks = [bi for bi, b in enumerate(f.blocks) for s in b["s"] if s["k"] == "assign" and s["p"]["l"] == 0 and s["r"]["k"] == "agg" and s["r"].get("variant") == "Ok"]
+    oks = [bi for bi, b in enumerate(f.blocks) for s in b["s"] if s["k"] == "assign" and s["p"]["l"] in Q.ret_locals(f) and s["r"]["k"] == "agg" and s["r"].get("variant") == "Ok"]
     sim = [c["bb"] for c in T.calls() if c["q"].endswith("::send_if_modified")]
     ctx.floor(R, "send_if_modified sites", len(sim), 1)
     names, tab = W.table({"ok": oks}, start=sim[0] if sim else 0)
@@ -95,7 +95,7 @@ def rule_atomic_accept(ctx):
     okret = False
     for bi in oks:
         for s in f.blocks[bi]["s"]:
-            if s["k"] == "assign" and s["p"]["l"] == 0 and s["r"]["k"] == "agg":
+            if s["k"] == "assign" and s["p"]["l"] in Q.ret_locals(f) and s["r"]["k"] == "agg":
                 t = T.rvalue(s["r"])
                 okret = any(is_res(x) for x in subterms(t))
     ctx.ob(R, "returned call is the removed entry", okret, "the returned (number, completion sender) is the removed map entry" if okret else "the returned call is not the removed entry", f.loc())
@@ -124,8 +124,8 @@ def rule_retry(ctx):
                 ins.append(c["bb"])
             if any(q.endswith("BTreeMap::remove") for q in qs):
                 rem.append(c["bb"])
-    oks = [bi for bi, b in enumerate(f.blocks) for s in b["s"] if s["k"] == "assign" and s["p"]["l"] == 0 and s["r"]["k"] == "agg" and s["r"].get("variant") == "Ok"]
-    errs = [bi for bi, b in enumerate(f.blocks) for s in b["s"] if s["k"] == "assign" and s["p"]["l"] == 0 and s["r"]["k"] == "agg" and s["r"].get("variant") == "Err"]
+    oks = [bi for bi, b in enumerate(f.blocks) for s in b["s"] if s["k"] == "assign" and s["p"]["l"] in Q.ret_locals(f) and s["r"]["k"] == "agg" and s["r"].get("variant") == "Ok"]
+    errs = [bi for bi, b in enumerate(f.blocks) for s in b["s"] if s["k"] == "assign" and s["p"]["l"] in Q.ret_locals(f) and s["r"]["k"] == "agg" and s["r"].get("variant") == "Err"]
     ctx.floor(R, "insert sites", len(ins), 1)
     ctx.floor(R, "remove sites", len(rem), 1)
     # start right after the completion wait
